@@ -5,10 +5,19 @@ correspondence : Model/Composite.lean at K = Rat (driver command comp.pixel, one
 search         : the real compositor vs comp_common.spec_composite - a NumPy float64 implementation of the published
                  formulas (Porter-Duff / PDF 1.7 11.3-11.4, Photoshop's factors, clipping groups) that recurses over
                  the document RECIPE; independent of the Lean model and of the Compositor class
+spec tie       : every request sent to comp.pixel is also sent to comp.spec and comp.spec.pub (Model/CompositeSpec.lean, the
+                 published model as a Lean denotation of the same tree; .pub = with the published group-alpha rule for knockout
+                 elements, comp.spec = with that one rule as coded).  Proved: the code model refines comp.spec on every tree
+                 (compositor_refines_spec_coded_knockout_doc) and comp.spec.pub on trees without knockout flags
+                 (compositor_refines_spec_partial_doc), so the answers must agree EXACTLY (rationals): same shape, same alpha,
+                 colour * alpha = premultiplied group colour.  On trees with knockout flags comp.spec.pub may differ: counted.
+knockout       : the witness of Props/C11.lean (compositor_refines_spec_fails_on_knockout: white over white is grey) is replayed
+                 on the real compositor and compared with comp.spec.pub
 """
 from __future__ import annotations
 
 import glob
+from fractions import Fraction
 import hashlib
 import json
 import os
@@ -18,6 +27,7 @@ import numpy as np
 import core
 import comp_common as cc
 
+NONSEP = {"HUE", "SATURATION", "COLOR", "LUMINOSITY", "DARKER_COLOR", "LIGHTER_COLOR"}
 FIXTURE_AREA = 1100 * 1100
 FIXTURE_PIXELS = 160
 NAMED_FIXTURES = ["clipping-mask.psd", "clipping-mask2.psd", "group.psd", "masks.psd", "masks2.psd", "masks3.psd"]
@@ -136,6 +146,44 @@ def report_failure(ctx, case, res, prop="C11"):
 
 
 # ------------------------------------------------------------------------------------------
+# comp.spec (the published model in Lean) against comp.pixel (the code model), exact
+# ------------------------------------------------------------------------------------------
+def spec_answers(ctx, reqs, cmd="comp.spec"):
+    return ctx.driver().batch([(cmd, *q[1:]) for q in reqs]) if reqs else []
+
+
+def spec_tie(pixel_ans, spec_ans, st, key="spec_tie"):
+    """None, or what differs between the answers of comp.pixel and comp.spec[.pub] to the same requests
+    (what compositor_refines_spec_*_doc says cannot differ)"""
+    for k, (a, b) in enumerate(zip(pixel_ans, spec_ans)):
+        st[key] = st.get(key, 0) + 1
+        if a[0] != "ok" or b[0] != "ok":
+            if a != b:
+                return f"request {k}: comp.pixel answers {a}, comp.spec answers {b}"
+            continue
+        ca, sa, aa = a[1].split(" ")
+        pb, sb, ab = b[1].split(" ")
+        if sa != sb:
+            return f"request {k}: shape {sa} (code model) != {sb} (published model)"
+        if aa != ab:
+            return f"request {k}: alpha {aa} (code model) != {ab} (published model)"
+        al = Fraction(aa)
+        cs, ps = ca.split(","), pb.split(",")
+        if len(cs) != len(ps):
+            return f"request {k}: {len(cs)} channels != {len(ps)}"
+        for i, (c, pm) in enumerate(zip(cs, ps)):
+            if Fraction(c) * al != Fraction(pm):
+                return f"request {k}: channel {i}: colour*alpha = {Fraction(c) * al} (code model) != {pm} (published model)"
+        if al != 0:
+            st[key + "_alpha_pos"] = st.get(key + "_alpha_pos", 0) + 1
+    return None
+
+
+def has_knockout(doc):
+    return any(n.get("knockout") for n in cc.walk(doc["recipe"]))
+
+
+# ------------------------------------------------------------------------------------------
 # one batch of cases: real + oracle in the pool, model through the driver
 # ------------------------------------------------------------------------------------------
 def process(ctx, cases, st, label, prop="C11", model=True):
@@ -148,6 +196,8 @@ def process(ctx, cases, st, label, prop="C11", model=True):
         else:
             spans.append(None)
     answers = ctx.driver().batch(reqs) if reqs else []
+    sanswers = spec_answers(ctx, reqs) if model else []
+    panswers = spec_answers(ctx, reqs, "comp.spec.pub") if model else []
     failing = []
     for c, r, sp in zip(cases, results, spans):
         doc = c["doc"]
@@ -188,6 +238,30 @@ def process(ctx, cases, st, label, prop="C11", model=True):
             ctx.hist("outcome", "no-oracle(non-separable on CMYK)")
         if sp is not None:
             ans = answers[sp[0]:sp[0] + sp[1]]
+            if sanswers:
+                tie = spec_tie(ans, sanswers[sp[0]:sp[0] + sp[1]], st)
+                if tie is not None and doc["mode"] == "CMYK" and set(cc.blend_modes(doc)) & NONSEP:
+                    # the CMYK wrapper of the non-separable modes leaves [0,1] (known findings of C12), so the hypothesis
+                    # BOk of compositor_refines_spec fails and the compositor's _clip is active: not covered by the theorem
+                    ctx.hist("spec_tie", "differs-outside-hypothesis(CMYK non-separable: blend value outside [0,1])")
+                elif tie is not None:
+                    ctx.disagree(f"published model (comp.spec) != code model (comp.pixel) ({label}, {c.get('variant')}): {tie}",
+                                 case_json(c))
+                    ctx.hist("spec_tie", "disagree")
+                else:
+                    ctx.hist("spec_tie", "agree")
+                ptie = spec_tie(ans, panswers[sp[0]:sp[0] + sp[1]], st, "spec_pub_tie")
+                if ptie is None:
+                    ctx.hist("spec_pub_tie", "agree (knockout flag present)" if has_knockout(doc) else "agree")
+                elif has_knockout(doc):
+                    # the one rule on which the code departs from the published model (findings: C11/knockout/group-alpha)
+                    ctx.hist("spec_pub_tie", "differs: knockout group-alpha rule")
+                elif doc["mode"] == "CMYK" and set(cc.blend_modes(doc)) & NONSEP:
+                    ctx.hist("spec_pub_tie", "differs-outside-hypothesis(CMYK non-separable: blend value outside [0,1])")
+                else:
+                    ctx.disagree(f"published model (comp.spec.pub) != code model (comp.pixel) on a tree WITHOUT knockout flags "
+                                 f"({label}, {c.get('variant')}): {ptie}", case_json(c))
+                    ctx.hist("spec_pub_tie", "disagree")
             m = cc.parse_answers(ans, r["pixels"], r["V"], r["nch"])
             ctx.corr_cases += len(ans)
             if isinstance(m, str):
@@ -253,7 +327,21 @@ def fixtures(ctx, st):
         allpx = [(x, y) for y in range(V[1], V[3]) for x in range(V[0], V[2])]
         pixels = allpx if len(allpx) <= FIXTURE_PIXELS else ctx.rng.sample(allpx, FIXTURE_PIXELS)
         pixels, reqs = xd.requests(V, pixels=pixels)
-        m = cc.parse_answers(ctx.driver().batch(reqs), pixels, V, xd.nch)
+        fans = ctx.driver().batch(reqs)
+        tie = spec_tie(fans, spec_answers(ctx, reqs), st)
+        if tie is not None and psd.color_mode.name == "CMYK":
+            ctx.hist("spec_tie", "differs-outside-hypothesis(CMYK fixture)")
+        elif tie is not None:
+            ctx.disagree(f"published model (comp.spec) != code model (comp.pixel) on fixture {rel}: {tie}", {"fixture": rel})
+        ptie = spec_tie(fans, spec_answers(ctx, reqs, "comp.spec.pub"), st, "spec_pub_tie")
+        if ptie is not None and psd.color_mode.name != "CMYK":
+            from psd_tools.constants import Tag
+            if any(l.tagged_blocks.get_data(Tag.KNOCKOUT_SETTING, 0) for l in psd.descendants()):
+                ctx.hist("spec_pub_tie", "differs: knockout group-alpha rule (fixture)")
+            else:
+                ctx.disagree(f"published model (comp.spec.pub) != code model (comp.pixel) on fixture {rel}, which has no "
+                             f"knockout flag: {ptie}", {"fixture": rel})
+        m = cc.parse_answers(fans, pixels, V, xd.nch)
         ctx.corr_cases += len(reqs)
         ctx.count(("fixture", rel), n=len(reqs))
         if isinstance(m, str):
@@ -303,10 +391,15 @@ def run(ctx: core.Run):
                         "features": cc.feature_sig(cases[0]["doc"]), "layers": cc.count_layers(cases[0]["doc"]["recipe"])}})
     fixtures(ctx, st)
     model_self_check(ctx, cases[:6])
+    knockout_witness(ctx)
 
     ctx.extra["max_abs_diff_model_vs_impl"] = {"alpha_shape": st["corr_da"], "premultiplied_colour": st["corr_dc"]}
     ctx.extra["max_abs_diff_impl_vs_published"] = {"alpha_shape": st["spec_da"], "premultiplied_colour": st["spec_dc"]}
     ctx.extra["pixels_next_to_a_blend_jump_or_steep_slope"] = {"pixels": st["unstable_px"], "of": st["px"]}
+    ctx.extra["spec_tie_requests_comp_spec_equals_comp_pixel_exactly"] = {
+        "requests": st.get("spec_tie", 0), "with_nonzero_alpha": st.get("spec_tie_alpha_pos", 0)}
+    ctx.extra["spec_pub_tie_requests_compared_with_comp_spec_pub"] = {
+        "requests": st.get("spec_pub_tie", 0), "with_nonzero_alpha": st.get("spec_pub_tie_alpha_pos", 0)}
     ctx.extra["tolerances"] = {"shape_alpha": cc.TOL_ALPHA, "premultiplied_colour": cc.TOL_COLOR, "alpha_min_for_colour": cc.ALPHA_MIN,
                                "stability_probe": {"delta": cc.DELTA_STAB, "limit": cc.STAB_LIMIT}}
     ctx.rule = (
@@ -322,6 +415,11 @@ def run(ctx: core.Run):
         "Model/Composite.lean: hand transliteration of composite/__init__.py (Compositor, composite, paste, _intersect) as a per-pixel "
         "state machine over Rat; tied by this run's correspondence check on every pixel of every generated document",
         "Model/CompositeEval.lean: the evaluator the driver runs, PROVED equal to the model (evaluator_is_model)",
+        "Model/CompositeSpec.lean: the published model (Porter-Duff / PDF 1.7 11.3.6, 11.4.4-11.4.8, Photoshop's factors, clipping "
+        "groups) as a Lean denotation of the same layer tree in premultiplied form, hand-transcribed; the code model is PROVED to refine "
+        "it (compositor_refines_spec*), its evaluator comp.spec is PROVED equal to it (spec_evaluator_is_spec) and is compared exactly "
+        "with comp.pixel on every correspondence request of this run (a difference on a CMYK document that uses a non-separable mode "
+        "is counted, not reported: there the blend table leaves [0,1] - known findings of C12 - and the theorem's hypothesis BOk fails)",
         "Model/Blend.lean (C12) instantiates the blend table",
         "harness/comp_common.py: extraction of the per-pixel tree through the public getters; the float64 oracle of the published model",
         "harness/pixdoc.py builds documents from low-level records; they are serialised and re-read by the library before use",
@@ -348,6 +446,54 @@ def run(ctx: core.Run):
         ctx.recheck(["PsdVerif.Props.C11"])
 
 
+KNOCKOUT_SIG = "C11/knockout/group-alpha/white-over-white"
+
+
+def knockout_witness_case():
+    """Props/C11.lean compositor_refines_spec_fails_on_knockout as a document: a white layer with alpha 128/255 and, in a
+    pass-through group above it, a white, fully covering layer with the knockout flag and opacity 128/255.  (The group hands its
+    children the backdrop `white, alpha 128/255`, which is the backdrop of the Lean witness.)"""
+    def px(alpha, **kw):
+        n = {"t": "pixel", "rect": [0, 0, 1, 1], "color": np.full((1, 1, 1), 255, np.uint8), "alpha": np.full((1, 1), alpha, np.uint8),
+             "opacity": 255, "fill": None, "blend": "NORMAL", "visible": True, "clip": False, "knockout": False, "mask": None}
+        n.update(kw)
+        return n
+    recipe = [px(128), {"t": "group", "blend": "PASS_THROUGH", "opacity": 255, "fill": None, "visible": True, "clip": False,
+                        "knockout": False, "children": [px(255, opacity=128, knockout=True)]}]
+    doc = {"recipe": recipe, "size": [1, 1], "mode": "L"}
+    cc.name_nodes(doc["recipe"])
+    return {"doc": doc, "stream": "witness", "variant": "plain"}
+
+
+def knockout_witness(ctx):
+    """the real compositor on the witness against the PUBLISHED model (comp.spec.pub); the float64 oracle of comp_common carries the
+    coded rule (it was written from the code's reading of the general formula), so the random search cannot see this one"""
+    case = knockout_witness_case()
+    r = cc.eval_case(dict(case, want_spec=False))
+    if r["error"] or not r["reqs"]:
+        ctx.disagree(f"the knockout witness cannot be evaluated: {r['error']}", case_json(case))
+        return
+    pub = spec_answers(ctx, r["reqs"], "comp.spec.pub")[0]
+    mod = ctx.driver().batch(r["reqs"])[0]
+    if pub[0] != "ok" or mod[0] != "ok":
+        ctx.disagree(f"the model does not evaluate the knockout witness: {mod} / {pub}", case_json(case))
+        return
+    pp, ps, pa = pub[1].split(" ")
+    pa, pp = float(Fraction(pa)), float(Fraction(pp.split(",")[0]))
+    c, s, a = (float(np.asarray(v).ravel()[0]) for v in r["real"])
+    ctx.extra["knockout_witness"] = {"real": {"colour": c, "alpha": a, "premultiplied": c * a},
+                                     "published": {"colour": pp / pa, "alpha": pa, "premultiplied": pp},
+                                     "code_model": mod[1]}
+    if abs(a - pa) > cc.TOL_ALPHA or abs(c * a - pp) > cc.TOL_COLOR:
+        ctx.fail(KNOCKOUT_SIG,
+                 "a white layer (alpha 128/255) below a pass-through group holding a white knockout layer of opacity 128/255: the "
+                 "composite is GREY and too opaque; after a knockout element Compositor._apply_source adds (shape - alpha) * alpha_0 "
+                 "to the group alpha, which PDF 1.7 11.4.6 does not have (alpha_g' = (1 - f_s) alpha_g + alpha_s)",
+                 case_json(case), {"colour": c, "alpha": a},
+                 {"colour": pp / pa, "alpha": pa, "from": "comp.spec.pub = Model/CompositeSpec.lean with KoRule.published; "
+                  "Props/C11.lean compositor_refines_spec_fails_on_knockout, knockout_alpha_excess"})
+
+
 def model_self_check(ctx, cases):
     """comp.pixel (tabulating evaluator) and comp.pixel.ref (compositeDoc itself) give identical answers on small trees"""
     n = 0
@@ -371,8 +517,22 @@ NOTES = [
     "opacity, for all 0 <= alpha_s <= f_s <= 1), normal_is_source_over (Porter-Duff over), flat_stack_is_porter_duff (any stack length), "
     "apply_source_knockout_eq_pdf (the knockout step), state_in_range (all colours, shapes, alphas in [0,1], alpha = Union(alpha_0, alpha_g), "
     "alpha_g <= shape_g through groups, masks, clip runs, knockout), evaluator_is_model (the driver's evaluator = compositeDoc)",
-    "stated in DESIGN, not proved: compositor_refines_spec for whole trees against a Lean denotation of the published group model; the "
-    "published model for trees is instead the float64 oracle of the harness (second oracle) and the step theorems above",
+    "proved (Props/C11.lean): compositor_refines_spec_partial (+ _list, _clip_run, _doc) - the code model (applyNode ...) refines the "
+    "published model written independently in premultiplied form without clamp or guarded division (Model/CompositeSpec.lean: specNode "
+    "...) on whole trees WITHOUT knockout flags: leaves, masks, opacity / fill, nested isolated and pass-through groups with backdrop "
+    "removal, clip runs; hypotheses: blend table keeps [0,1] (BOk), stored values in [0,1] (nodeOk), no knockout flag (nodeNoKo), state "
+    "invariant Inv and the relation Rel (equal shape / alpha bookkeeping, spec colour = code colour * alpha); result: equal shape and "
+    "alpha, colour * alpha = published premultiplied group colour (so equal colour wherever alpha != 0). "
+    "compositor_refines_spec_coded_knockout (+ _list, _clip_run, _doc): the same for EVERY tree, knockout elements and groups included, "
+    "against the published model with ONE recurrence replaced by the coded one (group alpha after a knockout element). "
+    "group_result_unclipped: 0 <= C*a - (1-a_g)*a_0*C_0 <= a_g through every tree incl. knockout steps, so the _clip of Compositor.color "
+    "and the 0/0 fallback of _divide are inert",
+    "DESIGN's compositor_refines_spec at full strength is FALSE of the code: compositor_refines_spec_fails_on_knockout (white layer with "
+    "the knockout flag, opacity 1/2, over a white backdrop of alpha 1/2: published alpha 1/2 and colour white, code alpha 3/4 and colour "
+    "5/6) and knockout_alpha_excess (the coded alpha exceeds the published one, which is the sum of the colour weights, by exactly "
+    "(1-a_0)(f_s-a_s)a_0 per knockout step); replayed on the real compositor by this run (knockout_witness in the evidence): finding "
+    + KNOCKOUT_SIG + ". The float64 oracle of comp_common.py still carries the coded rule, on purpose: the random search then looks for "
+    "OTHER deviations, this one is pinned by the witness",
     "correspondence-only: float32 vs exact arithmetic, np.sqrt, everything the extraction reads through public getters "
     "(layer.numpy, bbox, mask, tagged blocks, clip_layers, _has_clip_target)",
 ]
@@ -394,6 +554,11 @@ def replay(ctx, data):
     else:
         print("real alpha:\n", np.round(np.asarray(r["real"][2])[..., 0], 4))
         if r["spec"]:
-            print("first difference from the published model:", r["spec"][0])
+            print("first difference from the float64 oracle (published model, but with the knockout group-alpha rule as coded):", r["spec"][0])
+        if data.get("signature") == KNOCKOUT_SIG:
+            rr = cc.eval_case(dict(case, want_spec=False))
+            print("real colour:\n", np.round(np.asarray(rr["real"][0])[..., 0], 4))
+            print("published model (comp.spec.pub: premultiplied colour, shape, alpha):", spec_answers(ctx, rr["reqs"], "comp.spec.pub"))
+            print("code model      (comp.pixel:    straight colour,      shape, alpha):", ctx.driver().batch(rr["reqs"]))
     print("expected:", data.get("expected"))
     return 0
